@@ -252,6 +252,8 @@ func (e *Encoder) SetCReg(adj uint8, incr bool, c ivg.Color) {
 			e.err = errInvalidIncrementingAdjustment
 		}
 		adj = 7
+		// Track CSEL as the decoder's virtual machine will hold it.
+		e.cSel = (e.cSel + 1) & 0x3f
 	}
 
 	if x, ok := c.Encode1(); ok {
@@ -291,6 +293,8 @@ func (e *Encoder) SetNReg(adj uint8, incr bool, f float32) {
 			e.err = errInvalidIncrementingAdjustment
 		}
 		adj = 7
+		// Track NSEL as the decoder's virtual machine will hold it.
+		e.nSel = (e.nSel + 1) & 0x3f
 	}
 
 	// Try three different encodings and pick the shortest.
